@@ -21,6 +21,14 @@ def coords(mesh):
     return [[float(x) for x in v] for v in mesh.vertices]
 
 
+def attr_vals(mesh):
+    """values of the vertex attribute 'wa' (None when the mesh does not carry it)"""
+    if not mesh.vertices.has_attribute("wa"):
+        return None
+    a = mesh.vertices.get_attribute("wa")
+    return [float(a[i]) for i in range(len(mesh.vertices))]
+
+
 def elems(mesh):
     out = {}
     for k in ("edges", "faces", "cells"):
@@ -36,6 +44,7 @@ class Ref:
         self.name, self.producer = name, producer
         self.P = coords(mesh)
         self.E = elems(mesh)
+        self.A = attr_vals(mesh)
         self.clean = clean      # produced without any documented-or-not sharing with another pooled mesh
         self.family = family    # copy/merge family (in-place edits are judged inside families only)
         self.owner = None
@@ -65,7 +74,7 @@ class C06(Sim):
             "non-trivial = >= 2 meshes alive and >= 2 transform/edit calls")
     FAULT_KINDS = ["aliasing_schedule"]
     PROBES = ["merge_same_twice", "merge_result_edited", "copy_edited", "source_edited_after_copy", "open_ring", "boundary_producer",
-              "subdivision_producer", "int_coordinates", "inverse_pair", "flatten", "normalize", "load_producer", "inplace_edit", "copy_connectivity", "elem_edit", "cloud_in_merge", "copy_of_warm_source"]
+              "subdivision_producer", "int_coordinates", "inverse_pair", "flatten", "normalize", "load_producer", "inplace_edit", "copy_connectivity", "elem_edit", "cloud_in_merge", "copy_of_warm_source", "attribute_attached", "attr_edit"]
     QUICK_RUNS = 3000
     THOROUGH_RUNS = 300000
     BLOCK = 25
@@ -123,7 +132,7 @@ class C06(Sim):
             if "subdivision" not in off:
                 kinds += ["subdivide"]
         k = r.choice(kinds)
-        ev = {"c": owner, "op": "produce", "kind": k, "name": self._new_name()}
+        ev = {"c": owner, "op": "produce", "kind": k, "name": self._new_name(), "attr": r.choice([None, None, "dense", "sparse"])}
         if k in ("raw_surface", "from_arrays", "load_obj", "raw_int"):
             p, f = surfgen.gen_surface(r.fork(("w", self.nmesh)), r.choice([2, 5, 10]), tri_only=(k == "from_arrays"), allow_union=False)
             if k == "raw_int":
@@ -295,6 +304,12 @@ class C06(Sim):
                 return ed.mesh
         o = call(fn)
         if o.ok:
+            m_ = o.value
+            if ev.get("attr") and clean and k not in ("copy", "merge") and m_ is not None and len(m_.vertices) and not m_.vertices.has_attribute("wa"):
+                a_ = m_.vertices.create_attribute("wa", float, 1, dense=(ev["attr"] == "dense"))
+                for i_ in range(0, len(m_.vertices), 2):
+                    a_[i_] = 0.5 + i_
+                self.probes["attribute_attached"] += 1
             o.value = (o.value, clean)
         return o
 
@@ -320,6 +335,8 @@ class C06(Sim):
         ops = ["translate", "translate", "rotate", "scale", "scale_xyz", "normalize", "fit_unit", "to_origin", "flatten", "inverse_pair", "rebind_vertex"]
         if self._inplace_ok(t):
             ops += ["inplace_edit", "inplace_edit", "elem_edit"]
+        if rf.A is not None:
+            ops += ["attr_edit", "attr_edit"]
         op = r.choice(ops)
         ev = {"c": c, "op": op, "t": t}
         n = len(rf.P)
@@ -344,6 +361,9 @@ class C06(Sim):
             ev["s"] = r.choice([0.5, 2.0, 4.0, 0.125, -2.0])
         elif op == "elem_edit":
             ev["i"] = r.below(1 << 16)
+        elif op == "attr_edit":
+            ev["i"] = r.below(n)
+            ev["x"] = round(r.uniform(-9, 9), 3)
         elif op in ("rebind_vertex", "inplace_edit"):
             ev["i"] = r.below(n)
             ev["k"] = r.below(3)
@@ -381,6 +401,8 @@ class C06(Sim):
             return False
         if ev["op"] in ("normalize", "fit_unit") and self._extent(rf.P) < 1e-6:
             return False
+        if ev["op"] == "attr_edit" and (rf.A is None or ev["i"] >= len(rf.A)):
+            return False
         return True
 
     @staticmethod
@@ -411,6 +433,13 @@ class C06(Sim):
                 # an editing block works IN PLACE: the mesh passed to it and its result are documented to be the same mesh
                 # (C13: "either unchanged or equal to the result"), so they legitimately move together.  Refreshed, not judged.
                 rf.P = now
+            elif now == rf.P and attr_vals(self.pool[name]) != rf.A and name != target and target is not None and \
+                    self._alias_group(name) == self._alias_group(target):
+                rf.A = attr_vals(self.pool[name])  # same mesh by the editing-block contract: refreshed, not judged
+            elif now == rf.P and attr_vals(self.pool[name]) != rf.A and name != target:
+                trf = self.ref.get(target)
+                self.violation("never-alias", after, "state_corrupted", "other-mesh-attribute-changed", "%s->%s" % (trf.producer if trf else "?", rf.producer),
+                               "%s on %s changed the vertex attribute of mesh %s (%s): %r -> %r" % (after, target, name, rf.producer, rf.A, attr_vals(self.pool[name])))
             elif now == rf.P and elems(self.pool[name]) != rf.E and not (target is not None and self._alias_group(name) == self._alias_group(target)):
                 trf = self.ref.get(target)
                 self.violation("never-alias", after, "state_corrupted", "other-mesh-elements-changed", "%s->%s" % (trf.producer if trf else "?", rf.producer),
@@ -458,6 +487,16 @@ class C06(Sim):
                 if rf.P != s.P or rf.E != s.E or type(mesh) is not type(self.pool[ev["src"]]):
                     self.violation("copy-equals-source", "copy", "wrong_value", "copy", s.producer, "copy of %s differs from its source" % ev["src"])
                 src_mesh = self.pool[ev["src"]]
+                if s.A is not None:
+                    if ev["flags"][0]:
+                        if rf.A != s.A:
+                            self.violation("copy-equals-source", "copy", "wrong_value", "attributes", s.producer,
+                                           "copy(%s, copy_attributes=True): vertex attribute 'wa' reads %r, the source's reads %r" % (ev["src"], rf.A, s.A))
+                        a1, a2 = mesh.vertices.get_attribute("wa"), src_mesh.vertices.get_attribute("wa")
+                        d1, d2 = getattr(a1, "_data", None), getattr(a2, "_data", None)
+                        if a1 is a2 or d1 is d2 or (isinstance(d1, np.ndarray) and isinstance(d2, np.ndarray) and np.shares_memory(d1, d2)):
+                            self.violation("copy-shares-no-mutable-state", "copy", "state_corrupted", "shared:attribute-storage", "flags=%r" % (ev["flags"],),
+                                           "the copy's vertex attribute shares its storage with the source's")
                 shared = [cn for cn in ("vertices", "edges", "faces", "cells", "face_corners", "cell_corners", "cell_faces", "connectivity")
                           if hasattr(mesh, cn) and getattr(mesh, cn) is getattr(src_mesh, cn)]
                 for cn in ("vertices", "edges", "faces", "cells"):
@@ -599,6 +638,20 @@ class C06(Sim):
             exact = True
             clause = "edit-own-mesh"
             rf.E = None  # re-read below
+        elif op == "attr_edit":
+            self.probes["attr_edit"] += 1
+
+            def edit():
+                mesh.vertices.get_attribute("wa")[ev["i"]] = float(ev["x"])
+            o = call(edit)
+            exp = [list(p) for p in P]
+            exact = True
+            clause = "edit-own-mesh"
+            if o.ok:
+                rf.A = list(rf.A)
+                rf.A[ev["i"]] = float(ev["x"])
+                if attr_vals(mesh) != rf.A:
+                    self.violation(clause, op, "wrong_value", "attribute", rf.producer, "attribute edit did not land: %r vs %r" % (attr_vals(mesh), rf.A))
         elif op == "rebind_vertex":
             def edit():
 
@@ -636,7 +689,7 @@ class C06(Sim):
         ac = rf.producer + ("/int" if rf.producer == "raw_int" else "")
         if not o.ok:
             self.exc_violation(clause, op, o, ac, "%s on %s (%s) raised" % (op, t, rf.producer))
-        if op not in ("rebind_vertex", "inplace_edit", "elem_edit") and o.value is not mesh:
+        if op not in ("rebind_vertex", "inplace_edit", "elem_edit", "attr_edit") and o.value is not mesh:
             self.violation(clause, op, "wrong_value", "return", ac, "%s does not return the mesh it was given" % op)
         if rf.E is None:
             rf.E = elems(mesh)
@@ -682,6 +735,7 @@ class C06(Sim):
                 if s in self.pool:
                     self.ref[s].P = coords(self.pool[s])
                     self.ref[s].E = elems(self.pool[s])
+                    self.ref[s].A = attr_vals(self.pool[s])
                     self.ref[s].clean = False
 
     def nontrivial(self):
